@@ -31,9 +31,9 @@ Judge(e) == IF e.st # "ok" THEN "status"
             ELSE CASE e.kind \in {"chan", "select"} -> IF ChanOK(e) THEN "" ELSE "items"
                    [] e.kind = "mutex" -> IF e.x = e.n * e.m THEN "" ELSE "counter"
                    [] e.kind = "syncinst" -> IF Len(e.slots) = e.n /\ \A k \in 1..e.n : e.slots[k] = e.m THEN "" ELSE "slots"
-                   \* GenCache.tla: a definition cannot complete while a call is inside the critical section of the generic
-                   \* function, the held call runs the old or the new method, and afterwards the new method is the one called
-                   [] e.kind \in {"gencache", "gencache2"} -> IF e.gen.aok /\ e.gen.bok /\ ~e.gen.early /\ e.gen.a \in {"old", "new"} /\ e.gen.final = "new" THEN "" ELSE "generic cache"
+                   \* GenCache.tla: the held call runs the old or the new method, and once both have returned the new method is the
+                   \* one called (whether the definition has to wait for the call is the implementation's choice: not judged)
+                   [] e.kind \in {"gencache", "gencache2"} -> IF e.gen.aok /\ e.gen.bok /\ e.gen.a \in {"old", "new"} /\ e.gen.final = "new" THEN "" ELSE "generic cache"
                    [] e.kind = "tables" -> IF e.bad = <<>> THEN "" ELSE "tables"
                    [] OTHER -> "unknown kind"
 Init == l = 1 /\ bad = <<>>
